@@ -17,6 +17,7 @@ from .. import gen
 from ..ref import midi1
 
 ID = 'C19'
+ANCHORS = ['mido.syx']
 LEVEL = 'exploration'
 RULE = ('seeded message lists (0-40 messages; sysex payload lengths from {0,1,2,3,127,128,1000,'
         '1365,1366,5000} (+70 000/200 000 thorough) with zero/max/ramp/random contents, interleaved '
